@@ -25,9 +25,10 @@ RecvFrom(a, len, kind) ==
   /\ rcvd[a] + len <= MaxRecv
   /\ rcvd' = [rcvd EXCEPT ![a] = @ + len]
   /\ validated' = CASE kind = "handshake"     -> [validated EXCEPT ![a] = TRUE]     \* authenticated Handshake packet
+                    [] kind = "token"         -> [validated EXCEPT ![a] = TRUE]     \* Initial with the Retry token issued to a (RFC 9000 8.1.2)
                     [] kind = "response"      -> [b \in Addrs |-> validated[b] \/ chal[b]]  \* PATH_RESPONSE for our challenge
                     [] OTHER                  -> validated
-  /\ cur' = IF kind \in {"handshake", "onertt"} THEN a ELSE cur       \* the peer's packets move the current path
+  /\ cur' = IF kind \in {"handshake", "onertt", "token"} THEN a ELSE cur       \* the peer's packets move the current path
   /\ UNCHANGED <<sent, chal, last>>
 
 \* the endpoint emits a datagram to its current path, within the budget of that path
@@ -39,7 +40,17 @@ Emit(len, withChallenge) ==
   /\ last' = [to |-> cur, len |-> len, ok |-> AmplificationOk(validated[cur], sent[cur], len, rcvd[cur])]
   /\ UNCHANGED <<rcvd, validated, cur>>
 
-Next == \/ \E a \in Addrs, len \in 1..MaxDg, k \in {"garbage", "initial", "handshake", "onertt", "response"} : RecvFrom(a, len, k)
+\* before a connection exists the server (application) may answer an Initial from a with a Retry packet: stateless,
+\* sent to the address the Initial came from; it counts towards the bytes sent to that unvalidated address
+Retry(a, len) ==
+  /\ len \in 1..MaxDg /\ rcvd[a] > 0 /\ ~validated[a] /\ sent[a] + len <= 3 * MaxRecv + MaxDg
+  /\ AmplificationOk(validated[a], sent[a], len, rcvd[a])
+  /\ sent' = [sent EXCEPT ![a] = @ + len]
+  /\ last' = [to |-> a, len |-> len, ok |-> AmplificationOk(validated[a], sent[a], len, rcvd[a])]
+  /\ UNCHANGED <<rcvd, validated, chal, cur>>
+
+Next == \/ \E a \in Addrs, len \in 1..MaxDg, k \in {"garbage", "initial", "handshake", "onertt", "response", "token"} : RecvFrom(a, len, k)
+        \/ \E a \in Addrs, len \in 1..MaxDg : Retry(a, len)
         \/ \E len \in 1..MaxDg, c \in BOOLEAN : Emit(len, c)
 Spec == Init /\ [][Next]_vars
 
